@@ -28,9 +28,13 @@ pub fn subs() -> Vec<Box<dyn AnySub>> {
         quick: 12_000,
         thorough: 200_000,
         strat: || {
-            let wrong_sig_idx = ALL_DEFECTS.iter().position(|d| *d == super::c13::Defect::WrongSignature).unwrap();
-            let ws = ((wrong_sig_idx * 65536 + 65535) / ALL_DEFECTS.len()) as u16;
-            ("[A-Za-z0-9/+]{20,40}", any::<bool>(), prop_oneof![2 => Just(vec![]), 3 => Just(vec![ws]), 3 => proptest::collection::vec(any::<u16>(), 1..3)], any::<u8>())
+            let idx_of = |d: super::c13::Defect| -> u16 {
+                let i = ALL_DEFECTS.iter().position(|x| *x == d).unwrap();
+                ((i * 65536 + 65535) / ALL_DEFECTS.len()) as u16
+            };
+            use super::c13::Defect as D;
+            let sig_shapes: Vec<u16> = [D::WrongSignature, D::SignatureNonHex, D::SignatureUpperWrong, D::SignatureTooLong, D::SignatureTooShort, D::SignatureEmpty].iter().map(|d| idx_of(*d)).collect();
+            ("[A-Za-z0-9/+]{20,40}", any::<bool>(), prop_oneof![2 => Just(vec![]), 4 => (0usize..6).prop_map(move |i| vec![sig_shapes[i]]), 3 => proptest::collection::vec(any::<u16>(), 1..3)], any::<u8>())
                 .prop_map(|(secret, q, sel, variant)| {
                     let mut d: Vec<_> = sel.into_iter().map(|x| ALL_DEFECTS[pick_idx(x, ALL_DEFECTS.len())]).collect();
                     d.sort();
@@ -96,6 +100,7 @@ pub fn check_leak(lc: &LeakCase, cc: &mut CaseCtx) -> CheckResult {
         if defects.contains(&NoCarrier) && defects.contains(&BothCarriers) {
             defects.retain(|d| *d != BothCarriers);
         }
+        super::c13::reduce_signature_defects(&mut defects);
     }
     // build the request signed under *this* secret
     let mut case = build(&lc.req, &defects);
@@ -106,7 +111,7 @@ pub fn check_leak(lc: &LeakCase, cc: &mut CaseCtx) -> CheckResult {
     // make the presented signature the right one under the new secret unless a WrongSignature defect is wanted
     if let (Some(exp), Some(pres)) = (&a0.expected_sig, &a0.presented_sig) {
         let pres = latin1(pres);
-        if !defects.contains(&super::c13::Defect::WrongSignature) && pres.len() == 64 {
+        if !defects.iter().any(|d| d.rank() == R_SIGNATURE) && pres.len() == 64 {
             super::c01::replace_signature(&mut case.req, &pres, exp);
         }
     }
@@ -155,6 +160,22 @@ pub fn check_leak(lc: &LeakCase, cc: &mut CaseCtx) -> CheckResult {
             texts.push(("returned principal/session Debug".into(), format!("{:?} {:?}", p.principal, p.session)));
         }
         _ => {}
+    }
+    // key construction paths that refuse the secret (too long for the capacity) must not talk about it either
+    {
+        let too_long = format!("{}{}", lc.secret, "-padding-that-makes-the-secret-exceed-forty-bytes");
+        let (_, l1) = exec::with_logs(|| {
+            let a = KSecretKey::<44>::from_str(&too_long).map(|_| ()).map_err(|e| format!("{} {:?}", e, e));
+            let b = KSecretKey::<8>::from_str(&lc.secret).map(|_| ()).map_err(|e| format!("{} {:?}", e, e));
+            let c = KSecretKey::<64>::from_str(&lc.secret).map(|k| format!("{:?}", k.clone() == k)).map_err(|e| format!("{} {:?}", e, e));
+            format!("{:?}{:?}{:?}", a, b, c)
+        });
+        for (lvl, msg) in &l1 {
+            if *lvl <= log::Level::Debug {
+                texts.push((format!("log record at {} during key construction", lvl), msg.clone()));
+            }
+        }
+        nd.extend(needles("over-long secret", too_long.as_bytes()));
     }
     // renderings of public values built from the same material
     if let Ok(ks) = KSecretKey::<44>::from_str(&lc.secret) {
